@@ -222,6 +222,22 @@ func R6AcceptList(c *Ctx) {
 			srcs = []*ssa.BasicBlock{b}
 		}
 		for _, o := range other {
+			// `return a.find(RequestID) != NOTFOUND` is the membership path written through a find-index helper
+			if bo, ok := o.(*ssa.BinOp); ok && (bo.Op == token.NEQ || bo.Op == token.GEQ || bo.Op == token.GTR) {
+				if call, ok := bo.X.(*ssa.Call); ok {
+					if fi := c.FindIndexOf(call.Call.StaticCallee()); fi != nil {
+						k, isC := ConstInt(bo.Y)
+						okCmp := isC && ((bo.Op == token.NEQ && k == fi.notFound) || (bo.Op == token.GTR && k == fi.notFound) || (bo.Op == token.GEQ && k == fi.notFound+1))
+						if okCmp && fi.sliceType == PkgAgent+".Agent" && fi.slice == "Tasks" && fi.elemField == "RequestID" &&
+							fi.sliceArg < len(call.Call.Args) && IsParam(call.Call.Args[fi.sliceArg], recv) &&
+							fi.keyArg < len(call.Call.Args) && IsParam(call.Call.Args[fi.keyArg], reqID) {
+							n++
+							c.R.Ok(rule, fname, "return true [membership: a.Tasks[i].RequestID == RequestID on the receiver's own task list]", c.pos(ret.Pos()), "membership through the find-index helper "+call.Call.StaticCallee().Name(), true)
+							continue
+						}
+					}
+				}
+			}
 			c.R.Bad(rule, fname, "return "+AccessPath(o), c.pos(ret.Pos()), "the gate returns a computed value instead of one of the three enumerated accept paths")
 		}
 		for _, sb := range srcs {
@@ -365,6 +381,19 @@ func R6Issue(c *Ctx) {
 					}
 					if la, ok := Deref(pair[1]); ok {
 						if t, f2, _, ok := FieldOf(la); ok && t == PkgAgent+".Job" && f2 == "RequestID" {
+							match = true
+						}
+					}
+				}
+			}
+			if !match {
+				// or: the removed index comes from a find-index helper over the receiver's Tasks keyed by
+				// RequestID == this function's RequestID, and the store is on its "found" side
+				if ap, ok := st.Val.(*ssa.Call); ok && CalleeName(ap) == "builtin.append" && len(ap.Call.Args) > 0 {
+					if sl, ok := ap.Call.Args[0].(*ssa.Slice); ok && sl.High != nil {
+						if fi, call := c.foundIndexAt(sl.High, b); fi != nil && fi.sliceType == PkgAgent+".Agent" && fi.slice == "Tasks" && fi.elemField == "RequestID" &&
+							fi.sliceArg < len(call.Call.Args) && IsParam(call.Call.Args[fi.sliceArg], rc.Params[0]) &&
+							fi.keyArg < len(call.Call.Args) && IsParam(call.Call.Args[fi.keyArg], rc.Params[1]) {
 							match = true
 						}
 					}
